@@ -8,9 +8,11 @@ git diff > /tmp/_seed_patch.diff; git checkout -q -- .
 echo "--- demo without change"; /venv/bin/python demo_$ID.py >/tmp/demo_without.log 2>&1; echo "exit=$?"
 git apply /tmp/_seed_patch.diff
 cd /verif
+rm -rf .work/evidence_keep && cp -r evidence .work/evidence_keep   # evidence committed in /verif must come from runs on /repo itself
 for P in "$@"; do
   echo "--- check $P against the change"
   REPLICAT_REPO=$W timeout 1500 /venv/bin/python -m harness.check $P --tier quick 2>&1 | grep -E "VIOLATION|KNOWN|INFRA" | head -5; echo "exit=${PIPESTATUS[0]}"
 done
+rm -rf evidence && mv .work/evidence_keep evidence
 # leave Generated.lean as for /repo
 python3 tools/extract.py >/dev/null
